@@ -55,7 +55,7 @@ Step(e) ==
     [] e.a = "ImportPage"   -> ImportPage
     [] e.a = "Crash"        -> Crash(e.kind)
     [] e.a = "Restart"      -> Restart
-    [] e.a = "DiscardRows"  -> DiscardRows(e.c)
+    [] e.a = "DiscardRows"  -> DiscardRows(e.c, e.through)
     [] e.a = "DiscardMeta"  -> DiscardMeta(e.c)
     [] e.a = "Discard"      -> Discard
     [] e.a = "Touch"        -> Touch(e.c)
